@@ -35,6 +35,7 @@ type c15case struct {
 	MsgQ     string   `json:"msg,omitempty"`
 	Debug    bool     `json:"debug_mode,omitempty"`
 	Reg      bool     `json:"customs_registered,omitempty"` // custom levels treated as Error/Warn/Info/Debug are registered first
+	TimeCfg  string   `json:"time_cfg,omitempty"`           // time settings of the logger behind the handler: utc | local | layout-utc (each disagrees with the local-time flag)
 	Level2   int      `json:"level2,omitempty"`             // L4c: level of the logger at the time of the second derivation
 	Format2  string   `json:"format2,omitempty"`            // L4c: format of the logger at the time of the second derivation
 }
@@ -201,7 +202,11 @@ type c15world struct {
 func c15new(cas c15case) *c15world {
 	caseSeq++
 	resetAlt(caseSeq)
-	setFlagsVia(slog.LstdFlags|slog.LnoInterrupt, caseSeq/2)
+	fl := slog.LstdFlags | slog.LnoInterrupt
+	if cas.TimeCfg == "local" {
+		fl &^= slog.LlocalTime // the flag says UTC, the logger says local
+	}
+	setFlagsVia(fl, caseSeq/2)
 	if cas.Reg {
 		for i, as := range []slog.Level{slog.ErrorLevel, slog.WarnLevel, slog.InfoLevel, slog.DebugLevel} {
 			_ = slog.RegisterLevel(slog.Level(50+i), fmt.Sprintf("C15AUDIT%d", i), slog.RegWithTreatedAsLevel(as))
@@ -212,6 +217,14 @@ func c15new(cas c15case) *c15world {
 	w.l = slog.New("under").SetWriter(wr).SetErrorWriter(wr)
 	w.l.SetLevel(slog.Level(cas.LogLevel))
 	slog.VerifRestoreModes(cas.Debug, false)
+	switch cas.TimeCfg {
+	case "utc":
+		w.l.SetUTCMode(true)
+	case "local":
+		w.l.SetUTCMode(false)
+	case "layout-utc":
+		w.l.SetTimeFormat(time.RFC1123Z).SetUTCMode(true)
+	}
 	if cas.Via != "EntryLog" && cas.Via != "Bridge" {
 		w.h = slog.NewSlogHandler(w.l, &slog.HandlerOptions{NoColor: cas.Format != "color", JSON: cas.Format == "json", NoSource: cas.NoSource, Level: slog.Level(cas.OptLevel)})
 		slog.VerifRestoreModes(cas.Debug, false)
@@ -309,7 +322,7 @@ func c15levelMatches(format string, got string, want slog.Level) bool {
 
 func c15eval(cas c15case) *Violation {
 	mk := func(clause, detail string) *Violation {
-		sig := fmt.Sprintf("C15|%s|%s|via=%s|format=%s|slog_level=%d|logger_level=%s|attr=%s|chain=%v|opt_level=%d|bridge=%d|msg=%s|reg=%v|format2=%s|level2=%d", clause, cas.Layer, cas.Via, cas.Format, cas.SlogLvl, levelName(slog.Level(cas.LogLevel)), cas.Attr, cas.Chain, cas.OptLevel, cas.BridgeLv, cas.MsgQ, cas.Reg, cas.Format2, cas.Level2)
+		sig := fmt.Sprintf("C15|%s|%s|via=%s|format=%s|slog_level=%d|logger_level=%s|attr=%s|chain=%v|opt_level=%d|bridge=%d|msg=%s|reg=%v|format2=%s|level2=%d|time=%s", clause, cas.Layer, cas.Via, cas.Format, cas.SlogLvl, levelName(slog.Level(cas.LogLevel)), cas.Attr, cas.Chain, cas.OptLevel, cas.BridgeLv, cas.MsgQ, cas.Reg, cas.Format2, cas.Level2, cas.TimeCfg)
 		return mkViolation(sig, clause, detail, cas)
 	}
 	w := c15new(cas)
@@ -637,6 +650,12 @@ func c15eval(cas c15case) *Violation {
 	if cas.Via == "Handle" && cas.Format != "color" {
 		// the record's own instant (LstdFlags: local = the instant's own zone)
 		want := tsZone.Format(refDefaultLayout())
+		switch cas.TimeCfg {
+		case "utc":
+			want = tsZone.UTC().Format(refDefaultLayout())
+		case "layout-utc":
+			want = tsZone.UTC().Format(time.RFC1123Z)
+		}
 		if r.time != want {
 			return mk("record-time", fmt.Sprintf("record time %q, the record's own instant is %q", r.time, want))
 		}
@@ -776,6 +795,15 @@ func c15cases(thorough bool, emit func(c15case)) {
 	// L4d: a value that re-enters the handler while its record is being formatted
 	for _, f := range formats {
 		emit(c15case{Layer: "L4d-reentrant", Format: f, LogLevel: int(slog.TraceLevel), SlogLvl: 8, Via: "Handle"})
+	}
+	// L4t: the time settings of the logger behind the handler, for the handler itself and for every derivation chain
+	for _, tc := range []string{"utc", "local", "layout-utc"} {
+		for _, f := range formats {
+			emit(c15case{Layer: "L4t-time-settings", Format: f, LogLevel: int(slog.TraceLevel), SlogLvl: 4, Via: "Handle", TimeCfg: tc})
+			for _, ch := range chains {
+				emit(c15case{Layer: "L4t-time-settings", Format: f, LogLevel: int(slog.TraceLevel), SlogLvl: 4, Chain: ch, Via: "Handle", TimeCfg: tc})
+			}
+		}
 	}
 	// L4b: sibling handlers derived from one parent
 	for _, ch := range chains {
